@@ -192,6 +192,16 @@ class SpecMixin(object):
     # --- body
     b = h.fork()
     b.assume(i < n)
+    # an iterable that may fail while it is being consumed (e.g. a serializer generator raising after k chunks)
+    fail_at = None
+    if isinstance(seq, VRef) and self.oid_of(seq) is not None:
+      fail_at = b.pyheap.get((self.oid_of(seq), '$fail_at'))
+    if fail_at is not None:
+      f = b.fork()
+      f.assume(i == fail_at.t)
+      if self.feasible(f):
+        out.append((f, ('raise', self.make_exception(f, 'Exception', exact=False))))
+      b.assume(i != fail_at.t)
     if self.feasible(b):
       for s, c in self.assign(b, stmt.target, elem_of(b, i)):
         if c is not None:
@@ -210,6 +220,12 @@ class SpecMixin(object):
     # --- exit
     e = h
     e.assume(i == n)
+    if fail_at is not None:
+      f = e.fork()
+      f.assume(fail_at.t == n)       # the producer may also fail after its last chunk
+      if self.feasible(f):
+        out.append((f, ('raise', self.make_exception(f, 'Exception', exact=False))))
+      e.assume(fail_at.t != n)
     if self.feasible(e):
       out.extend(self.exec_block(e, stmt.orelse) if stmt.orelse else [(e, None)])
     return out
